@@ -7,7 +7,7 @@ From LzVerif Require Import Base.Bytes Codec.Store Codec.Range Codec.ProbProofs 
   Codec.RangeEncProofs Codec.RangeDecProofs Codec.RangeProofs Codec.LzmaSymProofs Codec.LzmaRoundtrip
   Codec.LzmaWriters Codec.LzmaChunkProofs Codec.LzmaReadProofs Codec.Lzma2Dec Codec.Lzma2FrameProofs
   Codec.Lzma2SpecProofs Codec.Lzma2WindowProofs Codec.Lzma2BitsProofs Codec.Lzma2ReadAuxProofs
-  Codec.Lzma2LoopProofs.
+  Codec.Lzma2LoopProofs Codec.Lzma2Loop0Proofs.
 Ltac Zify.zify_post_hook ::= Z.div_mod_to_equations.
 
 Ltac msimpl :=
@@ -92,40 +92,42 @@ Section Reader.
     end /\ (np = true -> has_props r = true) /\ (nd = true -> r = RDict).
 
   (* a flushed window holding the history *)
-  Definition win_ok (w : lzwin) (hist : list Z) : Prop :=
-    Rel w hist /\ w_size w = wsize /\ w_start w = w_pos w /\ w_pos w < w_size w.
+  (* [st = true]: the write position is strictly inside the buffer (always, after a flush);
+     [st = false] also allows the state LZDecoder::new leaves for a preset that fills the buffer *)
+  Definition win_ok (st : bool) (w : lzwin) (hist : list Z) : Prop :=
+    Rel w hist /\ w_size w = wsize /\ w_start w = w_pos w /\ (st = true -> w_pos w < w_size w).
 
-  Definition sync_win (r : rlevel) (h : ehist) (w : lzwin) : Prop :=
+  Definition sync_win (st : bool) (r : rlevel) (h : ehist) (w : lzwin) : Prop :=
     w_size w = wsize /\ w_pending_len w = 0 /\
     match r with
     | RDict => h_base h = h_pos h /\ 0 <= h_base h
-    | _ => exists hist, win_ok w hist /\ hist_rel h hist
+    | _ => exists hist, win_ok st w hist /\ hist_rel h hist
     end.
 
-  Definition at_boundary (r : rlevel) (h : ehist) (s : lzma2) : Prop :=
+  Definition at_boundary (st : bool) (r : rlevel) (h : ehist) (s : lzma2) : Prop :=
     m_uncompressed_size s = 0 /\ m_end_reached s = false /\ m_error s = None /\
     rdec_is_finished (m_rc s) = true /\
     sync_coder r (m_coder s) (m_probs s) (m_need_props s) (m_need_dict_reset s) (w_full (m_win s)) /\
-    sync_win r h (m_win s) /\ hfix h.
+    sync_win st r h (m_win s) /\ hfix h.
 
   (* inside a stored chunk: u bytes still to copy *)
-  Definition in_unc (s : lzma2) (rem : list Z) : Prop :=
+  Definition in_unc (st : bool) (s : lzma2) (rem : list Z) : Prop :=
     exists r h u bytes hist,
       0 < u /\ h_pos h + u <= T0 /\ m_uncompressed_size s = u /\ m_is_lzma_chunk s = false /\
       m_end_reached s = false /\ m_error s = None /\ rdec_is_finished (m_rc s) = true /\
       (r = RState \/ r = RProps) /\
       sync_coder r (m_coder s) (m_probs s) (m_need_props s) (m_need_dict_reset s) 0 /\
-      win_ok (m_win s) hist /\ w_pending_len (m_win s) = 0 /\ hist_rel h hist /\ hfix h /\
+      win_ok st (m_win s) hist /\ w_pending_len (m_win s) = 0 /\ hist_rel h hist /\ hfix h /\
       chunks_ok lc lp pb r (h_at h (h_pos h + u)) bytes /\
       m_in s = aget_list D0 (h_pos h) (Z.to_nat u) ++ bytes ++ tail /\ rem = data_from h.
 
   (* inside an LZMA chunk: u bytes still to decode from the decisions [rest] *)
-  Definition in_lzma (s : lzma2) (rem : list Z) : Prop :=
+  Definition in_lzma (st : bool) (s : lzma2) (rem : list Z) : Prop :=
     exists E t0 done rest c hist s_end h' bytes u,
       0 < u /\ m_uncompressed_size s = u /\ m_is_lzma_chunk s = true /\
       m_end_reached s = false /\ m_error s = None /\
       m_need_props s = false /\ m_need_dict_reset s = false /\
-      m_coder s = Some c /\ win_ok (m_win s) hist /\ coder_ok c (w_full (m_win s)) /\
+      m_coder s = Some c /\ win_ok st (m_win s) hist /\ coder_ok c (w_full (m_win s)) /\
       (0 < w_pending_len (m_win s) -> 0 <= w_pending_dist (m_win s) < w_full (m_win s)) /\
       E = done ++ rest /\ rc_sim E t0 [] done (m_rc s) (m_probs s) /\
       run_trace (aproduce (Z.to_nat u)
@@ -136,12 +138,12 @@ Section Reader.
       m_in s = bytes ++ tail /\
       rem = rev (firstn (Z.to_nat u) (a_hist s_end)) ++ data_from h'.
 
-  Definition Inv (s : lzma2) (rem : list Z) : Prop :=
-    (exists r h bytes, chunks_ok lc lp pb r h bytes /\ at_boundary r h s /\ m_in s = bytes ++ tail /\
+  Definition Inv (st : bool) (s : lzma2) (rem : list Z) : Prop :=
+    (exists r h bytes, chunks_ok lc lp pb r h bytes /\ at_boundary st r h s /\ m_in s = bytes ++ tail /\
                        rem = data_from h) \/
-    in_unc s rem \/ in_lzma s rem.
+    in_unc st s rem \/ in_lzma st s rem.
 
-  Lemma Inv_live s rem : Inv s rem -> m_end_reached s = false /\ m_error s = None.
+  Lemma Inv_live st s rem : Inv st s rem -> m_end_reached s = false /\ m_error s = None.
   Proof.
     intros [(r & h & bytes & _ & (_ & He & Hr & _) & _) | [H | H]].
     - split; assumption.
@@ -155,17 +157,19 @@ Section Reader.
   Proof. intros [-> | ->] H; exact H. Qed.
 
   (* ---- a stored chunk: one copy step ---------------------------------------------------------- *)
-  Lemma body_unc s rem len : in_unc s rem -> 0 < len ->
-    exists out s', iter_body s len = Ok (out, s') /\ out <> [] /\ zlen out <= len /\
-      exists rem', rem = out ++ rem' /\ Inv s' rem'.
+  Lemma body_unc st s rem len : in_unc st s rem -> 0 < len ->
+    exists out s', iter_body s len = Ok (out, s') /\ (st = true -> out <> []) /\ zlen out <= len /\
+      exists rem', rem = out ++ rem' /\ Inv true s' rem'.
   Proof.
     intros (r & h & u & bytes & hist & Hu & Hut & Hus & Hlz & Hend & Herr & Hfin & Hr & Hsc & Hw & Hpl & Hhr &
             Hfx & Hck & Hin & Hrem) Hlen.
     destruct Hw as (R & Hsz & Hst & Hps). destruct Hfx as (Hd & Ht & Hdi).
+    pose proof R as [_ [_ Hp2] _ _ _ _ _ _].
     unfold iter_body. rewrite Hlz, Hus. cbn [negb].
     set (m := Z.min u len).
     set (n := Z.min (w_size (m_win s) - w_pos (m_win s)) m).
-    assert (Hn : 1 <= n <= u) by (unfold n, m; lia).
+    assert (Hn : 0 <= n <= u) by (unfold n, m; lia).
+    assert (Hn1 : st = true -> 1 <= n) by (intros X; specialize (Hps X); unfold n, m; lia).
     assert (Hlin : (Z.to_nat n <= length (m_in s))%nat).
     { rewrite Hin, app_length, aget_list_length. lia. }
     destruct (copy_uncompressed_rel (m_win s) hist (m_in s) m R ltac:(unfold m; lia) Hlin)
@@ -192,14 +196,14 @@ Section Reader.
     msimpl. rewrite Hfin. cbn [negb orb].
     unfold lzwin_has_pending. rewrite Hpl3, Hpl', Hpl. change (0 <? 0) with false. rewrite andb_false_r.
     eexists out, _. split; [reflexivity|].
-    split; [intros X; rewrite X in Hzo; unfold zlen in Hzo; cbn [length] in Hzo; lia|].
+    split; [intros Y X; specialize (Hn1 Y); rewrite X in Hzo; unfold zlen in Hzo; cbn [length] in Hzo; lia|].
     split; [unfold n, m in Hzo |- *; lia|].
     exists (data_from (h_at h (h_pos h + n))).
     split.
     { rewrite Hrem, Hout'. unfold l. rewrite <- Hd. apply data_from_split. lia. }
     (* the new state *)
-    assert (Hw3 : win_ok w3 (rev l ++ hist)).
-    { split; [exact R3|]. split; [lia|]. split; [exact Hst3|]. rewrite Hsz3. apply Hfp; lia. }
+    assert (Hw3 : win_ok true w3 (rev l ++ hist)).
+    { split; [exact R3|]. split; [lia|]. split; [exact Hst3|]. intros _. rewrite Hsz3. apply Hfp; lia. }
     assert (Hhr3 : hist_rel (h_at h (h_pos h + n)) (rev l ++ hist)).
     { unfold l. rewrite <- Hd. replace n with (Z.of_nat (Z.to_nat n)) at 1 by lia. apply hist_rel_stored. exact Hhr. }
     assert (Hfx3 : hfix (h_at h (h_pos h + n))) by (unfold hfix, h_at; cbn; auto).
@@ -225,13 +229,13 @@ Section Reader.
   Qed.
 
   (* ---- an LZMA chunk: one decode call with whatever budget the buffers allow ------------------- *)
-  Lemma body_lzma s rem len : in_lzma s rem -> 0 < len ->
-    exists out s', iter_body s len = Ok (out, s') /\ out <> [] /\ zlen out <= len /\
-      exists rem', rem = out ++ rem' /\ Inv s' rem'.
+  Lemma body_lzma st s rem len : in_lzma st s rem -> 0 < len ->
+    exists out s', iter_body s len = Ok (out, s') /\ (st = true -> out <> []) /\ zlen out <= len /\
+      exists rem', rem = out ++ rem' /\ Inv true s' rem'.
   Proof.
     intros (E & t0 & done & rest & c & hist & se & h' & bytes & u & Hu & Hus & Hlz & Hend & Herr & Hnp & Hnd &
             Hco & Hw & Hcok & Hpd & HE & Hsim & Hrun & Hpe & Hhr & Hfx & Hcp & Hck & Hin & Hrem) Hlen.
-    destruct Hw as (R & Hsz & Hst & Hps).
+    destruct Hw as (R & Hsz & Hst & Hps). pose proof R as [_ [_ Hp2] _ _ _ _ _ _].
     unfold iter_body. rewrite Hlz, Hus, Hco. cbn [negb].
     set (m := Z.min u len).
     set (wl := lzwin_set_limit (m_win s) m).
@@ -245,7 +249,8 @@ Section Reader.
     assert (Hwl5 : w_pending_len wl = w_pending_len (m_win s)) by reflexivity.
     assert (Hwl6 : w_pending_dist wl = w_pending_dist (m_win s)) by reflexivity.
     set (b := w_limit wl - w_pos wl).
-    assert (Hb : 1 <= b <= u) by (unfold b; rewrite Hwl, Hwl2; unfold m; lia).
+    assert (Hb : 0 <= b <= u) by (unfold b; rewrite Hwl, Hwl2; unfold m; lia).
+    assert (Hb1 : st = true -> 1 <= b) by (intros X; specialize (Hps X); unfold b; rewrite Hwl, Hwl2; unfold m; lia).
     assert (Hblen : b <= len) by (unfold b; rewrite Hwl, Hwl2; unfold m; lia).
     assert (Hwf : Forall ev_wf rest).
     { destruct Hsim as (_ & Hok & _). apply forall_ev_wf in Hok. rewrite HE in Hok. eapply Forall_app_r; exact Hok. }
@@ -280,15 +285,15 @@ Section Reader.
     rewrite Hzo.
     destruct (Z.ltb_spec (u - b) 0) as [Hbad|_]; [lia|].
     msimpl.
-    assert (Hw3 : win_ok w3 (a_hist s1)).
-    { split; [exact R3|]. split; [lia|]. split; [exact Hst3|]. rewrite Hsz3. apply Hfp; [lia|].
+    assert (Hw3 : win_ok true w3 (a_hist s1)).
+    { split; [exact R3|]. split; [lia|]. split; [exact Hst3|]. intros _. rewrite Hsz3. apply Hfp; [lia|].
       destruct R1 as [_ [_ X] _ _ _ _ _ _]. exact X. }
     assert (Hrem1 : rem = out ++ rev new2 ++ data_from h').
     { rewrite Hrem, Hout'. rewrite Hh2, Hh1, app_assoc.
       rewrite firstn_app_exact by (rewrite app_length; lia).
       rewrite rev_app_distr, <- app_assoc. reflexivity. }
-    assert (Hne : out <> []).
-    { intros X; rewrite X in Hzo; unfold zlen in Hzo; cbn [length] in Hzo; lia. }
+    assert (Hne : st = true -> out <> []).
+    { intros Y X; specialize (Hb1 Y); rewrite X in Hzo; unfold zlen in Hzo; cbn [length] in Hzo; lia. }
     destruct (Z.eqb_spec (u - b) 0) as [Hz|Hnz].
     - (* the chunk is complete *)
       rewrite Hz in Hrun2. cbn [Z.to_nat aproduce run_trace] in Hrun2.
@@ -352,7 +357,7 @@ Section Reader.
               | destruct (Z.ltb_spec a b) as [?Hz|?Hz]; [|exfalso; lia] ]
     end.
 
-  Lemma at_boundary_reset r h s : at_boundary r h s ->
+  Lemma at_boundary_reset st r h s : at_boundary st r h s ->
     exists w1, lzwin_reset (m_win s) = Ok w1 /\ Rel w1 [] /\ w_size w1 = wsize /\ w_start w1 = 0 /\ w_pos w1 = 0 /\
                w_full w1 = 0 /\ w_pending_len w1 = 0.
   Proof.
@@ -361,15 +366,15 @@ Section Reader.
     exists w1. split; [exact H1|]. split; [exact H2|]. repeat split; lia.
   Qed.
 
-  Lemma header_unc r h s n rest :
-    at_boundary r h s -> 1 <= n <= 65536 -> m_in s = unc_header r n ++ rest ->
+  Lemma header_unc st r h s n rest :
+    at_boundary st r h s -> 1 <= n <= 65536 -> m_in s = unc_header r n ++ rest ->
     exists w1,
       lzma2_chunk_header s =
         Ok (mkLzma2 rest w1 (m_rc s) (m_probs s) (m_coder s) n false false
                     (match r with RDict => true | _ => m_need_props s end) false (m_error s)) /\
       match r with RDict => lzwin_reset (m_win s) = Ok w1 | _ => w1 = m_win s end.
   Proof.
-    intros Hb Hn Hin. pose proof (at_boundary_reset _ _ _ Hb) as (wr & Hreset & _).
+    intros Hb Hn Hin. pose proof (at_boundary_reset _ _ _ _ Hb) as (wr & Hreset & _).
     destruct Hb as (_ & _ & _ & _ & (_ & _ & Hnd) & _).
     pose proof (u16_bytes (n - 1) ltac:(lia)) as H16.
     unfold lzma2_chunk_header. rewrite Hin. unfold unc_header. cbn [app read_u8 obind].
@@ -385,8 +390,8 @@ Section Reader.
     exists wr. split; reflexivity.
   Qed.
 
-  Lemma header_lzma r h s usize body bytes d0 :
-    at_boundary r h s -> 1 <= usize <= 2097152 -> 1 <= zlen body <= 65536 ->
+  Lemma header_lzma st r h s usize body bytes d0 :
+    at_boundary st r h s -> 1 <= usize <= 2097152 -> 1 <= zlen body <= 65536 ->
     rdec_init body = Ok d0 ->
     m_in s = lzma_header lc lp pb r usize (zlen body) ++ body ++ bytes ++ tail ->
     exists w1,
@@ -395,7 +400,7 @@ Section Reader.
                     false false false (m_error s)) /\
       match r with RDict => lzwin_reset (m_win s) = Ok w1 | _ => w1 = m_win s end.
   Proof.
-    intros Hb Hu Hc Hd0 Hin. pose proof (at_boundary_reset _ _ _ Hb) as (wr & Hreset & _).
+    intros Hb Hu Hc Hd0 Hin. pose proof (at_boundary_reset _ _ _ _ Hb) as (wr & Hreset & _).
     destruct Hb as (_ & _ & _ & _ & (Hco & Hnp & Hnd) & _).
     pose proof (u16_bytes (zlen body - 1) ltac:(lia)) as H16.
     pose proof (rdec_prepare_of_init body (bytes ++ tail) d0 Hd0) as Hprep.
@@ -436,18 +441,18 @@ Section Reader.
   Qed.
 
   (* ---- the state right after the header of an LZMA chunk --------------------------------------- *)
-  Lemma lzma_chunk_start c0 t0 h syms E c' h' usize bytes s1 hist :
+  Lemma lzma_chunk_start st c0 t0 h syms E c' h' usize bytes s1 hist :
     no_end syms -> enc_syms c0 h syms = Ok (E, c', h') ->
     coder_params c' lc lp pb ->
     usize = h_pos h' - h_pos h -> 1 <= usize ->
     chunks_ok lc lp pb (RNone c' (snd (renc_events renc_init t0 E))) h' bytes ->
-    hfix h -> hist_rel h hist -> win_ok (m_win s1) hist -> w_pending_len (m_win s1) = 0 ->
+    hfix h -> hist_rel h hist -> win_ok st (m_win s1) hist -> w_pending_len (m_win s1) = 0 ->
     coder_ok c0 (w_full (m_win s1)) ->
     rc_sim E t0 [] [] (m_rc s1) t0 ->
     m_probs s1 = t0 -> m_coder s1 = Some c0 ->
     m_uncompressed_size s1 = usize -> m_is_lzma_chunk s1 = true -> m_end_reached s1 = false ->
     m_error s1 = None -> m_need_props s1 = false -> m_need_dict_reset s1 = false -> m_in s1 = bytes ++ tail ->
-    in_lzma s1 (data_from h).
+    in_lzma st s1 (data_from h).
   Proof.
     intros Hne He Hcp Hus Hu1 Hck (Hd & Ht & Hdi) Hhr Hw Hpl Hcok Hsim Hpr Hco Hsz Hlz Hend Herr Hnp Hnd Hin.
     assert (Hdok : data_ok h) by (intros i; unfold hget; rewrite Hd; apply Hdata).
@@ -478,12 +483,12 @@ Section Reader.
   Qed.
 
   (* the window after the header: reset for a dictionary reset, untouched otherwise *)
-  Lemma boundary_window r h s w1 : at_boundary r h s ->
+  Lemma boundary_window st r h s w1 : at_boundary st r h s ->
     match r with RDict => lzwin_reset (m_win s) = Ok w1 | _ => w1 = m_win s end ->
-    exists hist, win_ok w1 hist /\ hist_rel h hist /\ w_pending_len w1 = 0 /\
+    exists hist, win_ok st w1 hist /\ hist_rel h hist /\ w_pending_len w1 = 0 /\
                  match r with RNone c _ => coder_ok c (w_full w1) | _ => True end.
   Proof.
-    intros Hb Hw1. pose proof (at_boundary_reset _ _ _ Hb) as (wr & Hreset & Rr & Hszr & Hstr & Hpor & Hfur & Hplr).
+    intros Hb Hw1. pose proof (at_boundary_reset _ _ _ _ Hb) as (wr & Hreset & Rr & Hszr & Hstr & Hpor & Hfur & Hplr).
     destruct Hb as (_ & _ & _ & _ & (Hco & _) & (Hsz & Hpl & Hwin) & _).
     destruct r as [c t| | |].
     - subst w1. destruct Hwin as (hist & Hw & Hhr). exists hist.
@@ -494,16 +499,16 @@ Section Reader.
     - subst w1. destruct Hwin as (hist & Hw & Hhr). exists hist.
       split; [exact Hw|]. split; [exact Hhr|]. split; [exact Hpl | exact I].
     - rewrite Hreset in Hw1. apply Ok_inj in Hw1. subst w1. destruct Hwin as (Hbp & Hb0).
-      exists []. split; [split; [exact Rr|]; repeat split; lia|].
+      exists []. split; [split; [exact Rr|]; split; [lia|]; split; [lia|]; intros _; lia|].
       split; [|split; [exact Hplr | exact I]].
       unfold hist_rel. change (zlen (@nil Z)) with 0. split; [lia|]. split; [exact Hb0|]. intros d Hd. lia.
   Qed.
 
-  Lemma header_ok r h bytes : chunks_ok lc lp pb r h bytes ->
-    forall s, at_boundary r h s -> m_in s = bytes ++ tail ->
+  Lemma header_ok st r h bytes : chunks_ok lc lp pb r h bytes ->
+    forall s, at_boundary st r h s -> m_in s = bytes ++ tail ->
     exists s1, lzma2_chunk_header s = Ok s1 /\
       ((m_end_reached s1 = true /\ m_error s1 = None /\ m_in s1 = tail /\ data_from h = []) \/
-       (m_end_reached s1 = false /\ (in_unc s1 (data_from h) \/ in_lzma s1 (data_from h)))).
+       (m_end_reached s1 = false /\ (in_unc st s1 (data_from h) \/ in_lzma st s1 (data_from h)))).
   Proof.
     induction 1 as [r h He | r h bytes _ IH | r h n bytes Hn Hle Hck _ | r h syms E c' h' usize csize bytes
                     Hne Hs Hp Hbits Hu Hur Hc Hcr Hck _]; intros s Hb Hin.
@@ -523,8 +528,8 @@ Section Reader.
       lia.
     - (* stored chunk *)
       rewrite <- !app_assoc in Hin.
-      destruct (header_unc r h s n _ Hb Hn Hin) as (w1 & Hhdr & Hw1).
-      destruct (boundary_window r h s w1 Hb Hw1) as (hist & Hwok & Hhr & Hpl1 & _).
+      destruct (header_unc st r h s n _ Hb Hn Hin) as (w1 & Hhdr & Hw1).
+      destruct (boundary_window st r h s w1 Hb Hw1) as (hist & Hwok & Hhr & Hpl1 & _).
       destruct Hb as (_ & Hend & Herr & Hfin & (Hco & Hnp & Hnd) & _ & Hfx).
       eexists. split; [exact Hhdr|]. right. msimpl. split; [reflexivity|]. left.
       pose proof Hfx as (Hd & Ht & _).
@@ -553,51 +558,71 @@ Section Reader.
       destruct (rc_sim_init E t0 [] Ht0 Hok Hbits) as (d0 & Hinit & Hsim).
       rewrite app_nil_r in Hinit. fold (chunk_body t0 E) in Hinit.
       rewrite <- !app_assoc in Hin. rewrite Hc in Hin, Hcr.
-      destruct (header_lzma r h s usize (chunk_body t0 E) bytes d0 Hb Hur Hcr Hinit Hin) as (w1 & Hhdr & Hw1).
-      destruct (boundary_window r h s w1 Hb Hw1) as (hist & Hwok & Hhr & Hpl1 & Hcok).
+      destruct (header_lzma st r h s usize (chunk_body t0 E) bytes d0 Hb Hur Hcr Hinit Hin) as (w1 & Hhdr & Hw1).
+      destruct (boundary_window st r h s w1 Hb Hw1) as (hist & Hwok & Hhr & Hpl1 & Hcok).
       eexists. split; [exact Hhdr|]. right. msimpl. split; [reflexivity|]. right.
-      eapply (lzma_chunk_start c0 t0 h syms E c' h' usize bytes _ hist Hne Hs Hp Hu ltac:(lia) Hck Hfx Hhr);
+      eapply (lzma_chunk_start st c0 t0 h syms E c' h' usize bytes _ hist Hne Hs Hp Hu ltac:(lia) Hck Hfx Hhr);
         msimpl; try reflexivity; try assumption.
       unfold c0. destruct r as [c t| | |]; cbn [start_coder]; try (apply coder_ok_new; assumption). exact Hcok.
   Qed.
 
   (* ---- one iteration of the read loop ---------------------------------------------------------- *)
-  Lemma iter_step s rem len : Inv s rem -> 0 < len ->
+  Lemma iter_step_gen st s rem len : Inv st s rem -> 0 < len ->
     exists out s', lzma2_iter s len = Ok (out, s') /\
       ((rem = [] /\ out = [] /\ Ended tail s') \/
-       (out <> [] /\ zlen out <= len /\ exists rem', rem = out ++ rem' /\ Inv s' rem')).
+       ((st = true -> out <> []) /\ zlen out <= len /\ exists rem', rem = out ++ rem' /\ Inv true s' rem')).
   Proof.
     intros [(r & h & bytes & Hck & Hb & Hin & Hrem) | [H | H]] Hlen; rewrite lzma2_iter_eq.
     - pose proof Hb as (Hus & _). rewrite Hus. change (0 =? 0) with true. cbv iota.
-      destruct (header_ok r h bytes Hck s Hb Hin) as (s1 & Hhdr & [(He1 & Her1 & Hin1 & Hd1) | (He1 & Hbody)]);
+      destruct (header_ok st r h bytes Hck s Hb Hin) as (s1 & Hhdr & [(He1 & Her1 & Hin1 & Hd1) | (He1 & Hbody)]);
         rewrite Hhdr; cbn [obind]; rewrite He1.
       + exists [], s1. split; [reflexivity|]. left. split; [congruence|]. split; [reflexivity|].
         split; [exact He1|]. split; assumption.
       + subst rem. destruct Hbody as [Hbody | Hbody].
-        * destruct (body_unc s1 _ len Hbody Hlen) as (out & s' & H1 & H2 & H3 & H4).
+        * destruct (body_unc st s1 _ len Hbody Hlen) as (out & s' & H1 & H2 & H3 & H4).
           exists out, s'. split; [exact H1|]. right. auto.
-        * destruct (body_lzma s1 _ len Hbody Hlen) as (out & s' & H1 & H2 & H3 & H4).
+        * destruct (body_lzma st s1 _ len Hbody Hlen) as (out & s' & H1 & H2 & H3 & H4).
           exists out, s'. split; [exact H1|]. right. auto.
     - pose proof H as (r & h & u & bytes & hist & Hu & _ & Hus & _ & Hend & _).
       rewrite Hus. destruct (Z.eqb_spec u 0) as [X|_]; [lia|]. cbn [obind]. rewrite Hend.
-      destruct (body_unc s rem len H Hlen) as (out & s' & H1 & H2 & H3 & H4).
+      destruct (body_unc st s rem len H Hlen) as (out & s' & H1 & H2 & H3 & H4).
       exists out, s'. split; [exact H1|]. right. auto.
     - pose proof H as (E & t0 & done & rest & c & hist & se & h' & bytes & u & Hu & Hus & _ & Hend & _).
       rewrite Hus. destruct (Z.eqb_spec u 0) as [X|_]; [lia|]. cbn [obind]. rewrite Hend.
-      destruct (body_lzma s rem len H Hlen) as (out & s' & H1 & H2 & H3 & H4).
+      destruct (body_lzma st s rem len H Hlen) as (out & s' & H1 & H2 & H3 & H4).
       exists out, s'. split; [exact H1|]. right. auto.
   Qed.
 
+  Lemma iter_step s rem len : Inv true s rem -> 0 < len ->
+    exists out s', lzma2_iter s len = Ok (out, s') /\
+      ((rem = [] /\ out = [] /\ Ended tail s') \/
+       (out <> [] /\ zlen out <= len /\ exists rem', rem = out ++ rem' /\ Inv true s' rem')).
+  Proof.
+    intros HI Hlen. destruct (iter_step_gen true s rem len HI Hlen) as (out & s' & H1 & [H2 | (H2 & H3)]).
+    - exists out, s'. split; [exact H1|]. left. exact H2.
+    - exists out, s'. split; [exact H1|]. right. split; [apply H2; reflexivity | exact H3].
+  Qed.
+
+  Lemma iter_step0 st s rem len : Inv st s rem -> 0 < len ->
+    exists out s', lzma2_iter s len = Ok (out, s') /\
+      ((rem = [] /\ out = [] /\ Ended tail s') \/
+       (zlen out <= len /\ exists rem', rem = out ++ rem' /\ Inv true s' rem')).
+  Proof.
+    intros HI Hlen. destruct (iter_step_gen st s rem len HI Hlen) as (out & s' & H1 & [H2 | (_ & H3)]).
+    - exists out, s'. split; [exact H1|]. left. exact H2.
+    - exists out, s'. split; [exact H1|]. right. exact H3.
+  Qed.
+
   (* ---- every read history of a well-formed chunk sequence -------------------------------------- *)
-  Theorem read_chunks r h bytes s sizes fuel :
-    chunks_ok lc lp pb r h bytes -> at_boundary r h s -> m_in s = bytes ++ tail ->
+  Theorem read_chunks st r h bytes s sizes fuel :
+    chunks_ok lc lp pb r h bytes -> at_boundary st r h s -> m_in s = bytes ++ tail ->
     Forall (fun z => 0 < z) sizes -> (length (data_from h) + 2 <= fuel)%nat ->
     exists s_end, lzma2_read_all fuel s sizes sizes [] = Ok (data_from h, 0, s_end) /\ m_in s_end = tail.
   Proof.
     intros Hck Hb Hin Hsz Hf.
-    assert (HI : Inv s (data_from h)) by (left; exists r, h, bytes; auto).
-    destruct (read_all_ok Inv tail Inv_live iter_step fuel s (data_from h) sizes sizes [] HI Hsz Hsz Hf)
-      as (s_end & Hr & (_ & _ & Ht)).
+    assert (HI : Inv st s (data_from h)) by (left; exists r, h, bytes; auto).
+    destruct (read_all_ok0 (Inv true) (Inv st) tail (Inv_live true) iter_step (Inv_live st) (iter_step0 st)
+                fuel s (data_from h) sizes sizes [] HI Hsz Hsz Hf) as (s_end & Hr & (_ & _ & Ht)).
     exists s_end. split; [exact Hr | exact Ht].
   Qed.
 
@@ -655,7 +680,7 @@ Proof.
   { intros i. apply (data_ok_new dict [] data eq_refl Hbytes i). }
   match goal with |- exists s_end, lzma2_read_all _ ?s0 _ _ _ = _ /\ _ =>
     destruct (read_chunks lc lp pb dict (l2_window_size dict) tail (h_data h0) (h_total h0) Hlc Hlp Hs Hpb Hdict
-                Hws3 Hws1 Hws2 Hdata RDict h0 stream s0 sizes fuel Hck) as (s_end & Hr & Ht)
+                Hws3 Hws1 Hws2 Hdata true RDict h0 stream s0 sizes fuel Hck) as (s_end & Hr & Ht)
   end.
   - (* the initial reader state is at a chunk boundary needing a dictionary reset *)
     unfold at_boundary. msimpl.
@@ -674,12 +699,12 @@ Qed.
 Print Assumptions lzma2_roundtrip.
 
 (* ---------------------------------------------------------------------------------------------
-   With a (non-empty) preset dictionary.  Proved for a preset not longer than the dictionary size
-   and shorter than the reader's window.  Not proved: (1) a preset that fills the window (the first
-   loop iteration of the reader then returns no bytes - it only wraps the write position - which
-   the per-iteration progress lemma [iter_step] excludes); (2) a preset longer than a dictionary
-   size that the reader rounds up: the reader then keeps more of the preset than the writer model's
-   view has, positions differ by a constant and the two runs are isomorphic, not equal.  The EMPTY preset
+   With a (non-empty) preset dictionary of any length; a preset that fills the window makes the
+   first loop iteration of the reader return no bytes (the flush only wraps the write position):
+   Lzma2Loop0Proofs.v.  Not proved: a preset LONGER than a dictionary size that the reader rounds
+   up (dict < 4096 or not a multiple of 16): the reader then keeps more of the preset than the
+   writer model's view has, the positions differ by a constant, and the two runs are isomorphic
+   (position-dependent contexts are renamed consistently) but not equal.  The EMPTY preset
    is refuted in Lzma2ExamplesProofs.v (lzma2_empty_preset_refuted). *)
 Lemma aset_list_app a : forall b t i, aset_list t i (a ++ b) = aset_list (aset_list t i a) (i + zlen a) b.
 Proof.
@@ -743,7 +768,7 @@ Qed.
 
 Theorem lzma2_roundtrip_preset : forall lc lp pb dict p data evs stream tail sizes,
   0 <= lc -> 0 <= lp -> lc + lp <= 4 -> 0 <= pb <= 4 -> dict <= 2147483648 ->
-  p <> [] -> zlen p <= dict -> zlen p < l2_window_size dict ->
+  p <> [] -> (zlen p <= dict \/ l2_window_size dict = dict) ->
   bytes_ok p = true -> bytes_ok data = true ->
   l2_no_end evs ->
   lzma2_write lc lp pb dict (Some p) data evs = Ok stream ->
@@ -752,7 +777,7 @@ Theorem lzma2_roundtrip_preset : forall lc lp pb dict p data evs stream tail siz
     forall fuel, (length data + 2 <= fuel)%nat ->
     exists s_end, lzma2_read_all fuel s0 sizes sizes [] = Ok (data, 0, s_end) /\ m_in s_end = tail.
 Proof.
-  intros lc lp pb dict p data evs stream tail sizes Hlc Hlp Hs Hpb Hdict Hpne Hplen Hplen' Hpb' Hbytes Hne Hw Hsizes.
+  intros lc lp pb dict p data evs stream tail sizes Hlc Hlp Hs Hpb Hdict Hpne Hplen Hpb' Hbytes Hne Hw Hsizes.
   pose proof (lzma2_frame_sync lc lp pb dict (Some p) data evs stream Hdict Hne Hw) as Hck.
   cbn [start_level preset_list] in Hck.
   unfold lzma2_new, lzma2_get_dict_size. cbn [obind]. fold (l2_window_size dict).
@@ -768,7 +793,7 @@ Proof.
   pose proof (zlen_nonneg p) as Hpz.
   match goal with |- exists s_end, lzma2_read_all _ ?s0 _ _ _ = _ /\ _ =>
     destruct (read_chunks lc lp pb dict (l2_window_size dict) tail (h_data h0) (h_total h0) Hlc Hlp Hs Hpb Hdict
-                Hws3 Hws1 Hws2 Hdata RProps h0 stream s0 sizes fuel Hck) as (s_end & Hr & Ht)
+                Hws3 Hws1 Hws2 Hdata false RProps h0 stream s0 sizes fuel Hck) as (s_end & Hr & Ht)
   end.
   - unfold at_boundary. msimpl. rewrite Hhas. cbn [negb].
     split; [reflexivity|]. split; [reflexivity|]. split; [reflexivity|]. split; [reflexivity|].
@@ -779,7 +804,8 @@ Proof.
     unfold win_ok. split.
     + unfold preset_kept. replace (Z.min (zlen p) dict) with (Z.min (zlen p) (l2_window_size dict)) by lia.
       apply lzwin_new_preset_rel; assumption.
-    + unfold lzwin_new. cbn [w_size w_start w_pos]. repeat split; lia.
+    + unfold lzwin_new. cbn [w_size w_start w_pos]. split; [reflexivity|]. split; [reflexivity|].
+      intros X; discriminate X.
   - reflexivity.
   - exact Hsizes.
   - rewrite Hdf. exact Hf.
